@@ -90,6 +90,13 @@ func c10Ops() []c10Op {
 		ops = append(ops, c10Op{Text: fmt.Sprintf("zz = get_key(%s)\ndrop_key(%s)\nset_tag(%s, \"t\")\nzz = %s\nadd_key(%s, 1.5)", k, k, k, k, k)})
 		ops = append(ops, c10Op{Text: fmt.Sprintf("zz = %s\ncast(%s, \"str\")\nzz = %s\nset_tag(%s)\nzz = %s\nadd_key(%s, nil)", k, k, k, k, k, k)})
 	}
+	// the alias spelling `_` of `message` in every writer (whatever it creates
+	// must be the key `message`, readable and removable under both spellings)
+	for _, t := range []string{"set_tag(_)", "set_tag(_, \"tv3\")", "add_key(_, 5)", "add_key(_, \"s2\")", "cast(_, \"int\")", "trim(_)", "uppercase(_)",
+		"set_measurement(_, true)", "rename(n1, _)", "rename(_, n1)", "rename(_, t)", "strfmt(_, \"%v\", 1)", "default_time(_)", "_ = 3\nadd_key(_)", "_ = \"v\"\nset_tag(_)"} {
+		ops = append(ops, c10Op{Text: t})
+	}
+	ops = append(ops, c10Op{Text: "drop_key(_)", Kind: "drop:message"})
 	ops = append(ops, c10Op{Text: `grok(message, "%{WORD:n1} %{INT:n2:int}")`})
 	ops = append(ops, c10Op{Text: `grok(f, "%{NUMBER:n1:float}")`})
 	ops = append(ops, c10Op{Text: `grok(message, "%{WORD:t:str} %{INT:f:bool}")`})
@@ -283,6 +290,40 @@ func c10ScriptReads(pt *input.Point) (class, detail string) {
 			}
 		} else if got.V != nil {
 			return "script-read-returns-value-not-held", fmt.Sprintf("a script reading %s gets %s but the key is in neither map", k, ref.Show(got.V))
+		}
+	}
+	// a present key of any other name (nothing in the alphabet spells one) must
+	// be readable too, under its own name
+	var extra []string
+	for k := range pt.Fields {
+		extra = append(extra, k)
+	}
+	for k := range pt.Tags {
+		extra = append(extra, k)
+	}
+	sort.Strings(extra)
+	for _, k := range extra {
+		known := false
+		for _, k0 := range c10Keys {
+			known = known || k0 == k
+		}
+		if known || strings.ContainsAny(k, "`\n\\") {
+			continue
+		}
+		s, err := c10Script("p(`" + k + "`)")
+		if err != nil {
+			return "present-key-not-addressable", fmt.Sprintf("the point holds a key %q that no script can name: %v", k, err)
+		}
+		rs := &drive.RunState{Budget: 1000}
+		o := drive.RunV1(s, clonePoint(pt), rs)
+		if o.Panic != nil || o.Err != nil || len(rs.Events) != 1 {
+			return "probe-failed", fmt.Sprintf("%v %v", o.Panic, o.Err)
+		}
+		got := rs.Events[0].Vals[0]
+		if fv, ok := pt.Fields[k]; ok && !ref.DeepEqual(got.V, fv, true) {
+			return "script-read-differs-from-stored", fmt.Sprintf("a script reading `%s` gets %s, the field holds %s", k, ref.Show(got.V), ref.Show(fv))
+		} else if tv, ok := pt.Tags[k]; ok && got.V != any(tv) {
+			return "script-read-differs-from-stored", fmt.Sprintf("a script reading `%s` gets %s, the tag holds %q", k, ref.Show(got.V), tv)
 		}
 	}
 	return "", ""
